@@ -725,3 +725,35 @@ def _unflatten_loose(treedef, leaves):
         # fall back to a plain nested structure
         return jax.tree_util.tree_unflatten(
             jax.tree_util.tree_structure(list(range(len(leaves)))), leaves)
+
+
+class Traced:
+    """Trace `fn` once on placeholders shaped like `args`; call repeatedly with other (symbolic or
+    concrete) arguments of the same shapes.  Only valid when fn itself does not depend on what varies."""
+
+    def __init__(self, fn, *args):
+        leaves, self.treedef = jax.tree_util.tree_flatten(args, is_leaf=is_sym)
+        self.dyn_idx = [i for i, l in enumerate(leaves) if is_sym(l) or isinstance(l, (jax.Array, np.ndarray))]
+        self.static = list(leaves)
+        dyn_vals = [leaves[i] for i in self.dyn_idx]
+
+        def wrapped(*dyn):
+            ls = list(self.static)
+            for i, d in zip(self.dyn_idx, dyn):
+                ls[i] = d
+            return fn(*jax.tree_util.tree_unflatten(self.treedef, ls))
+
+        self.cj, self.out_shape = jax.make_jaxpr(wrapped, return_shape=True)(*[_placeholder(v) for v in dyn_vals])
+        self.shapes = [tuple(np.shape(v.a if is_sym(v) else v)) for v in dyn_vals]
+        STATS["jaxprs_traced"] += 1
+        STATS["jaxpr_eqns_total"] += count_eqns(self.cj.jaxpr)
+        self.out_tree = jax.tree_util.tree_structure(self.out_shape)
+
+    def __call__(self, *args):
+        leaves, treedef = jax.tree_util.tree_flatten(args, is_leaf=is_sym)
+        dyn_vals = [leaves[i] for i in self.dyn_idx]
+        for v, s in zip(dyn_vals, self.shapes):
+            if tuple(np.shape(v.a if is_sym(v) else v)) != s:
+                raise Unsupported("Traced: argument shape differs from the traced one")
+        outs = run_jaxpr(self.cj.jaxpr, list(self.cj.consts), dyn_vals)
+        return _unflatten_loose(self.out_tree, outs)
